@@ -25,7 +25,7 @@ CLAIMS = {
       "Cut offsets are exhaustive over abstract frame sizes and scaled for compressed / terminator frames.", "6 C04"),
   "C05": claim("Wire.tla (WellFormed) / TraceWire.tla with the raw exchange tokenised by an independent reference codec: " + PIPE,
       "Every response the real handler writes and every request the real client writes in the scenarios of C01/C02/C08/C11 is parsed by the harness' own strict codec (own envelope parser, protowire decoding of Status/Any, own percent / base64 / JSON handling); grammar problems (status count and placement, end-of-stream envelope, content-type echo, flag without encoding header, unary error JSON under the code's status) fail the trace and the decoded content must equal what the application supplied.",
-      "The converse direction (peer-encoded input with all legal casings / paddings) is covered for responses by C06's scenarios; a dedicated generator is future work.", "6 C05"),
+      "Converse direction: the reference codec acts as a conformant foreign server (every combination of an encoder's freedoms: padding, hex case, extra escaping, omitted grpc-message / details, status in headers, key casing, per-message compression, compressed unary error body, JSON whitespace) against the real client, and as a conformant foreign client (per-message compression, bare gRPC content types, padded -Bin values, blanks in the accept list, unknown algorithm) against the real handler; both must decode to the program's values. The reference codec is written from the wire descriptions and shares no code with the library.", "6 C05"),
   "C06": claim("Resp.tla (NeverZero, Non200Fails) / TraceResp.tla: " + PIPE,
       "Response classes (17 HTTP statuses x content type x encoding header x gRPC status / details-bin classes in headers and in the terminator x Connect error JSON classes x body classes x metadata key casing x protocol x 4 call shapes) plus seeded random bodies are fed to the real client through a scripted HTTPClient; the outcome must be a success or an error inspectable as *connect.Error with a non-zero code, exactly the code Resp.tla prescribes where the protocols prescribe one, and terminator metadata must be found under its canonical key.",
       "Random bodies run with a 1 MiB read limit to bound the harness' memory.", "6 C06"),
